@@ -5,6 +5,7 @@ import (
 	"fmt"
 	"math/big"
 	"math/rand"
+	"os"
 	"runtime"
 	"sort"
 	"strconv"
@@ -76,10 +77,16 @@ func (r *conc14Runner) parallel(target string, n int, body func(w int, rng *rand
 	}
 	done := make(chan struct{})
 	go func() { wg.Wait(); close(done) }()
+	// minimisation re-runs of a failing history (SVH_TIMER_PATIENCE_MS is set for them) must not wait three minutes for every
+	// candidate that still deadlocks
+	limit := 180 * time.Second
+	if os.Getenv("SVH_TIMER_PATIENCE_MS") != "" {
+		limit = 25 * time.Second
+	}
 	select {
 	case <-done:
-	case <-time.After(180 * time.Second):
-		r.add("C14", "deadlock", fmt.Sprintf("%s seed=%d: workers did not finish within 180s", target, seed))
+	case <-time.After(limit):
+		r.add("C14", "deadlock", fmt.Sprintf("%s seed=%d: workers did not finish within %v", target, seed, limit))
 		return false
 	}
 	if panics > 0 {
